@@ -366,7 +366,7 @@ def validate(unit=None, digits=('u64', 'u32', 'u16', 'u8'), modes=('dbg',)):
                 print('PROBLEM', d, m, p)
                 bad += 1
             for it in g.items:
-                if it.kind in ('fn', 'const') and (unit is None or it.entry.unit == unit) and not it.identical:
+                if it.kind in ('fn', 'const') and (unit is None or it.entry.unit == unit) and not it.identical and not it.assumed:
                     bad += 1
                     print(f'NOT IDENTICAL {d} {m} {it.key} ratio={it.ratio:.3f}')
                     e = it.entry
